@@ -129,6 +129,11 @@ fn seg_strategy() -> impl Strategy<Value = [P; 4]> {
         }),
         // random finite doubles
         3 => [(-1e3f64..1e3, -1e3f64..1e3), (-1e3f64..1e3, -1e3f64..1e3), (-1e3f64..1e3, -1e3f64..1e3), (-1e3f64..1e3, -1e3f64..1e3)],
+        // the small lattice at a uniformly extreme scale 2^k, |k| up to 395 (every coordinate stays exactly representable)
+        1 => ((2i64..7).prop_flat_map(move |g| (lat(g), lat(g), lat(g), lat(g))), prop_oneof![-395i32..-200, 200i32..396]).prop_map(|((a, b, c, d), k)| {
+            let m = |p: (i64, i64)| (p.0 as f64 * 2f64.powi(k), p.1 as f64 * 2f64.powi(k));
+            [m(a), m(b), m(c), m(d)]
+        }),
         // end points that almost coincide (a few ulps apart): crossings right at the ends of both segments
         3 => ((-1100.0f64..1100.0, -1100.0f64..1100.0), (-1100.0f64..1100.0, -1e-6f64..1e-6), (-1100.0f64..1100.0, -1100.0f64..1100.0), [-3i64..4, -3i64..4], any::<bool>()).prop_map(|(a, b, d, k, swap)| {
             let nudge = |v: f64, n: i64| if v == 0.0 { v } else { f64::from_bits((v.to_bits() as i64 + n) as u64) };
@@ -253,7 +258,10 @@ impl Property for C11 {
                         let maxabs = c.pts.iter().fold(0f64, |m, q| m.max(q.0.abs()).max(q.1.abs()));
                         // the crossing of two lines is conditioned like 1 / sin(angle): a few ulps, scaled by that
                         let tol = 16.0 * ulp(maxabs) / sin;
-                        obs.expect((p.0 - t.0).abs() <= tol && (p.1 - t.1).abs() <= tol, "line_intersection|proper-point-inaccurate", || {
+                        // input class for the known-findings matcher: magnitudes at which the triple products of the
+                        // homogeneous intersection formula overflow (above 2^330) or underflow (below 2^-330)
+                        let ext = if hi > 2f64.powi(330) || lo < 2f64.powi(-330) { "|magnitude-beyond-2^330" } else { "" };
+                        obs.expect((p.0 - t.0).abs() <= tol && (p.1 - t.1).abs() <= tol, &format!("line_intersection|proper-point-inaccurate{ext}"), || {
                             format!("got {:?} true {:?} tol {tol}; {}", p, t, ctx())
                         });
                     }
@@ -297,7 +305,12 @@ impl Property for C11 {
                     let t = true_crossing(a, b, cc, d);
                     let maxabs = c.pts.iter().fold(0f64, |m, q| m.max(q.0.abs()).max(q.1.abs()));
                     let tol = 16.0 * ulp(maxabs) / sin;
-                    obs.expect((y.x - t.0).abs() <= tol && (y.y - t.1).abs() <= tol, "line_intersection|proper-point-inaccurate", || format!("{name}: got {:?} true {:?} tol {tol}; {}", y, t, ctx()));
+                    let ext = {
+                        let mags: Vec<f64> = c.pts.iter().flat_map(|q| [q.0.abs(), q.1.abs()]).filter(|v| *v > 0.0).collect();
+                        let (lo, hi) = (mags.iter().cloned().fold(f64::INFINITY, f64::min), mags.iter().cloned().fold(0.0, f64::max));
+                        if hi > 2f64.powi(330) || lo < 2f64.powi(-330) { "|magnitude-beyond-2^330" } else { "" }
+                    };
+                    obs.expect((y.x - t.0).abs() <= tol && (y.y - t.1).abs() <= tol, &format!("line_intersection|proper-point-inaccurate{ext}"), || format!("{name}: got {:?} true {:?} tol {tol}; {}", y, t, ctx()));
                 }
             }
         }
